@@ -1,4 +1,99 @@
-import SdModel.Model.UMap
+import SdModel.Lemmas.UMap
+
+/-!
+# C12 — map-like diff round trip for maps, in both equality modes
+
+`UMap.hashcmp prev cur keyOnly` / `UMap.apply` model `unordered_map_like::{unordered_hashcmp, apply_unordered_hashdiffs}`.
+A map is a list of pairs with unique keys (`UniqueKeys`), observed through `plookup`.  Statements are per key,
+hence independent of any hash-map iteration order.  `keyOnly` selects the collector only; the value comparison
+of retained keys happens in both modes, exactly as in the code.
+-/
 namespace C12
-theorem placeholder : True := trivial
+open UMap
+variable {κ ν : Type} [DecidableEq κ] [DecidableEq ν]
+
+/-- **round trip** (either mode, either representation): the result is a map (every key once) equal to
+current key for key and value for value -/
+theorem roundtrip (prev cur : List (κ × ν)) (hp : UniqueKeys prev) (hc : UniqueKeys cur) (b : Bool) (d : Diff κ ν)
+    (h : hashcmp prev cur b = some d) :
+    UniqueKeys (apply prev d) ∧ ∀ k, plookup (apply prev d) k = plookup cur k := by
+  obtain ⟨p1, p2, p3, p4⟩ := coll_unique b prev hp
+  obtain ⟨c1, c2, c3, c4⟩ := coll_unique b cur hc
+  obtain ⟨b1, b2, b3, _⟩ := coll_unique true prev hp
+  simp only [hashcmp, hashcmpA_eq] at h
+  split at h
+  · simp only [Option.some.injEq] at h
+    subst h
+    exact plookup_eq_of_mget cur _ c1 c3
+  · split at h
+    · cases h
+    · simp only [Option.some.injEq] at h
+      subst h
+      obtain ⟨m1, m2⟩ := roundtrip_mget (coll b prev) (coll b cur) (collectKeyEq prev) p1 c1 p2 c2 b1 b2
+        (by intro x; rw [p3]; exact b3 x)
+      exact plookup_eq_of_mget cur _ m1 (by intro x; rw [m2 x, c3])
+
+/-- both representations occur -/
+example : hashcmp [(1, 10), (2, 20), (3, 30), (4, 40)] [(1, 11)] false = some (.replace [(1, 11)]) := by decide
+example : hashcmp [(1, 10), (2, 20), (3, 30)] [(1, 10), (2, 21), (4, 40)] true
+    = some (.modify [.removeSingle 2, .insertSingle 2 21, .insertSingle 4 40, .removeSingle 3]) := by decide
+
+/-- a key whose value changed ends up with the new value, never the old one and never both -/
+theorem changed_key (prev cur : List (κ × ν)) (hp : UniqueKeys prev) (hc : UniqueKeys cur) (b : Bool) (d : Diff κ ν)
+    (h : hashcmp prev cur b = some d) (k : κ) (v v' : ν) (h1 : plookup prev k = some v) (h2 : plookup cur k = some v')
+    (_hne : v ≠ v') : plookup (apply prev d) k = some v' ∧ UniqueKeys (apply prev d) := by
+  obtain ⟨a1, a2⟩ := roundtrip prev cur hp hc b d h
+  exact ⟨by rw [a2, h2], a1⟩
+
+/-- the diff is absent exactly when the maps are equal -/
+theorem absent_iff (prev cur : List (κ × ν)) (hp : UniqueKeys prev) (hc : UniqueKeys cur) (b : Bool) :
+    hashcmp prev cur b = none ↔ ∀ k, plookup prev k = plookup cur k := by
+  obtain ⟨p1, p2, p3, p4⟩ := coll_unique b prev hp
+  obtain ⟨c1, c2, c3, c4⟩ := coll_unique b cur hc
+  obtain ⟨b1, b2, b3, _⟩ := coll_unique true prev hp
+  have inj : ∀ (a b : Option ν), a.map (fun v => (v, 1)) = b.map (fun v => (v, 1)) → a = b := by
+    intro a b h; cases a <;> cases b <;> simp_all
+  constructor
+  · intro h k
+    simp only [hashcmp, hashcmpA_eq] at h
+    split at h
+    · cases h
+    · split at h
+      · rename_i hemp
+        have hnil : entriesOf (coll b prev) (coll b cur) = [] := by simpa using hemp
+        obtain ⟨_, m2⟩ := roundtrip_mget (coll b prev) (coll b cur) (collectKeyEq prev) p1 c1 p2 c2 b1 b2
+          (by intro x; rw [p3]; exact b3 x)
+        have := m2 k
+        simp only [hnil, List.filter_nil, applyRemovals, applyInsertions] at this
+        rw [show mget (collectKeyEq prev) k = _ from b3 k, c3] at this
+        exact inj _ _ this
+      · cases h
+  · intro h
+    have hPC : ∀ x, mget (coll b prev) x = mget (coll b cur) x := by intro x; rw [p3, c3, h x]
+    obtain ⟨l1, l2, l3, l4, _, l6⟩ := loop1_spec (coll b cur) (coll b prev) c1 p1 c2 p2
+    have hrest : (loop1 (coll b cur) (coll b prev)).2.1 = [] := by
+      apply eq_nil_of_mget_none
+      intro x
+      rw [l4 x]
+      cases hc' : mget (coll b cur) x with
+      | none => simp [hPC x, hc']
+      | some vc => simp
+    have hr1 : (loop1 (coll b cur) (coll b prev)).1 = [] := by
+      apply eq_nil_of_totals _ l6
+      intro x
+      have ll := l1 x
+      have s1 := congrArg (·.1) ll
+      have s2 := congrArg (·.2.1) ll
+      simp only [] at s1 s2
+      rw [s1, s2, hPC x]
+      cases hc' : mget (coll b cur) x with
+      | none => simp [loopSpec]
+      | some vc => obtain ⟨v, cc⟩ := vc; simp [loopSpec, headSpec]
+    have hlen : (coll b prev).length = (coll b cur).length := by
+      rw [p4, c4]
+      exact length_eq_of_lookup prev cur hp hc (by intro k; rw [h k])
+    simp only [hashcmp, hashcmpA_eq]
+    rw [if_neg (by rw [hlen]; omega)]
+    simp [entriesOf, hr1, hrest, restOf]
+
 end C12
